@@ -11,7 +11,11 @@ from __future__ import annotations
 import json
 
 from .. import kernels, kruns, problems
+from ..kernels import RealWorker
 from ..core import Check, Driver, sx
+
+
+WORKER = RealWorker()
 
 
 def run(chk: Check, drv: Driver):
@@ -61,7 +65,7 @@ def run(chk: Check, drv: Driver):
                     if pr.broadcast:
                         continue
                     cases = [pr.gen_inputs(rng) for _ in range(2)]
-                    res = kernels.in_fork(lambda: kernels.run_real(pr.text, pr.fs, [ins for _, ins in cases], "llvm", feedback=True), timeout=60)
+                    res = WORKER.run(pr.text, pr.fs, [ins for _, ins in cases], "llvm", feedback=True, capacity=cap, timeout=60)
                     if res[0] != "ok":
                         chk.violation(f"real kernel {res[0]}: {res[1:3]}", pr.case(*cases[0], capacity=cap))
                         continue
